@@ -10,205 +10,211 @@ use vh_lite::{read_cases, drive, drive_group, quiet_panics, Out};
 
 mod tc_right__topar;
 mod tc_left__gen;
-mod tc_left__srcpar;
-mod tc_nonlin__ser;
-mod tc_nonlin__permpar;
-mod mutual__topar;
-mod mutual__redecl;
-mod mutual__str;
-mod scc_chain__perm1;
-mod diamond__par;
-mod repeated__perm1;
-mod three_dyn__par;
-mod three_dyn__str;
-mod conds__pari;
-mod conds__redecl;
-mod expr_args__ser;
-mod multi_head__ser;
-mod multi_head__permpar;
-mod facts__src1;
-mod facts__perm2;
-mod opt_cols__pari;
-mod opt_cols__redecl;
-mod same_gen__par;
-mod same_gen__str;
-mod not_reorderable__perm1;
-mod pre_join_rec__topar;
-mod two_inputs__to;
-mod two_inputs__srcto;
-mod two_inputs__permpar;
-mod ternary__par;
-mod ternary__strpar;
-mod bound_mix__str;
-mod join_chain__ren;
-mod reach__ser;
-mod self_join3__ser;
-mod lag_right__perm1;
-mod lag_left__par;
-mod lag_three__topar;
-mod lag_mid__str;
-mod multi_head_rec__ser;
-mod sp_dual__par;
-mod sp_dual__src1;
-mod sp_dual__perm2;
-mod longest_capped__ser;
-mod set_reach__to;
-mod set_reach__srcto;
+mod tc_left__runpar;
+mod tc_left__strpar;
+mod tc_nonlin__ren;
+mod mutual__to;
+mod mutual__srcto;
+mod mutual__ren;
+mod scc_chain__to;
+mod scc_chain__strpar;
+mod repeated__par;
+mod repeated__strpar;
+mod three_dyn__ren;
+mod conds__ser;
+mod conds__src2;
+mod conds__perm2;
+mod count_up__pari;
+mod multi_head__perm1;
+mod facts__mrt;
+mod facts__init;
+mod facts__u64;
+mod opt_cols__src0;
+mod opt_cols__srcpar;
+mod same_gen__topar;
+mod not_reorderable__ser;
+mod not_reorderable__permpar;
+mod pre_join_rec__ren;
+mod two_inputs__mrt;
+mod two_inputs__init;
+mod two_inputs__u64;
+mod ternary__perm1;
+mod bound_mix__par;
+mod bound_mix__strpar;
+mod join_chain__str;
+mod reach__pari;
+mod self_join3__pari;
+mod lag_right__ren;
+mod lag_left__to;
+mod lag_mid__par;
+mod lag_mid__strpar;
+mod multi_head_rec__pari;
+mod sp_dual__to;
+mod sp_dual__srcto;
+mod sp_dual__ren;
+mod longest_capped__par;
+mod set_reach__topar;
+mod set_reach__srcred;
 mod bset__to;
 mod opt_lat__par;
 mod lat_two_keys__ser;
 mod lat_pre_join__ser;
 mod lat_val_bound__ser;
 mod lat_input__run;
-mod lat_input__init;
-mod count_paths__run;
-mod count_paths__init;
-mod neg_basic__run;
-mod neg_basic__init;
-mod neg_basic__exppar;
-mod agg_depth__topar;
-mod agg_user__pari;
-mod agg_bound_mix__pari;
-mod agg_empty_rel__pari;
-mod agg_pre_join__ser;
-mod disj__run;
-mod disj__init;
-mod disj__exppar;
-mod pat_args__pari;
-mod multi_head_disj__ser;
-mod neg_in_disj__exp;
-mod mac_basic__mrt;
-mod mac_basic__runpar;
-mod mac_capture__exppar;
-mod mac_gensym_disj__pari;
-mod stress_lat__ser;
-mod rnd_core_01__pari;
-mod rnd_core_04__par;
-mod rnd_core_07__ser;
-mod rnd_core_09__pari;
-mod rnd_core_12__par;
-mod rnd_core_15__ser;
-mod rnd_core_17__pari;
-mod rnd_core_20__par;
-mod rnd_core_23__ser;
-mod rnd_core_25__pari;
-mod rnd_core_28__par;
-mod rnd_agg_01__ser;
-mod rnd_agg_03__pari;
-mod rnd_agg_06__par;
-mod rnd_agg_09__ser;
-mod rnd_agg_11__pari;
-mod rnd_agg_14__par;
-mod rnd_prec_01__to;
-mod rnd_prec_03__par;
-mod rnd_prec_04__topar;
-mod rnd_prec_06__pari;
-mod rnd_prec_08__ser;
-mod rnd_prea_02__ser;
-mod rnd_prea_04__pari;
-mod rnd_prea_07__par;
+mod lat_input__redecl;
+mod count_paths__topar;
+mod count_paths__srcred;
+mod neg_basic__to;
+mod neg_basic__srcto;
+mod neg_basic__ren;
+mod agg_depth__par;
+mod agg_lattice__topar;
+mod neg_rec_after__exppar;
+mod agg_empty__topar;
+mod agg_const_args__pari;
+mod disj__pari;
+mod disj__src2;
+mod disj__perm2;
+mod disj_nested__exp;
+mod rep_expr__par;
+mod multi_head_disj__exppar;
+mod mac_basic__pari;
+mod mac_basic__src2;
+mod mac_basic__exppar;
+mod mac_nested__pari;
+mod mac_local_names__ser;
+mod mac_block__exp;
+mod stress_lat__par;
+mod rnd_core_02__ser;
+mod rnd_core_04__pari;
+mod rnd_core_07__par;
+mod rnd_core_10__ser;
+mod rnd_core_12__pari;
+mod rnd_core_15__par;
+mod rnd_core_18__ser;
+mod rnd_core_20__pari;
+mod rnd_core_23__par;
+mod rnd_core_26__ser;
+mod rnd_core_28__pari;
+mod rnd_agg_01__par;
+mod rnd_agg_04__ser;
+mod rnd_agg_06__pari;
+mod rnd_agg_09__par;
+mod rnd_agg_12__ser;
+mod rnd_agg_14__pari;
+mod rnd_prec_01__topar;
+mod rnd_prec_03__pari;
+mod rnd_prec_05__ser;
+mod rnd_prec_06__to;
+mod rnd_prec_08__par;
+mod rnd_prea_02__par;
+mod rnd_prea_05__ser;
+mod rnd_prea_07__pari;
 
 fn lookup(name: &str) -> fn() -> Box<dyn Driven> {
    match name {
       "tc_right__topar" => tc_right__topar::make,
       "tc_left__gen" => tc_left__gen::make,
-      "tc_left__srcpar" => tc_left__srcpar::make,
-      "tc_nonlin__ser" => tc_nonlin__ser::make,
-      "tc_nonlin__permpar" => tc_nonlin__permpar::make,
-      "mutual__topar" => mutual__topar::make,
-      "mutual__redecl" => mutual__redecl::make,
-      "mutual__str" => mutual__str::make,
-      "scc_chain__perm1" => scc_chain__perm1::make,
-      "diamond__par" => diamond__par::make,
-      "repeated__perm1" => repeated__perm1::make,
-      "three_dyn__par" => three_dyn__par::make,
-      "three_dyn__str" => three_dyn__str::make,
-      "conds__pari" => conds__pari::make,
-      "conds__redecl" => conds__redecl::make,
-      "expr_args__ser" => expr_args__ser::make,
-      "multi_head__ser" => multi_head__ser::make,
-      "multi_head__permpar" => multi_head__permpar::make,
-      "facts__src1" => facts__src1::make,
-      "facts__perm2" => facts__perm2::make,
-      "opt_cols__pari" => opt_cols__pari::make,
-      "opt_cols__redecl" => opt_cols__redecl::make,
-      "same_gen__par" => same_gen__par::make,
-      "same_gen__str" => same_gen__str::make,
-      "not_reorderable__perm1" => not_reorderable__perm1::make,
-      "pre_join_rec__topar" => pre_join_rec__topar::make,
-      "two_inputs__to" => two_inputs__to::make,
-      "two_inputs__srcto" => two_inputs__srcto::make,
-      "two_inputs__permpar" => two_inputs__permpar::make,
-      "ternary__par" => ternary__par::make,
-      "ternary__strpar" => ternary__strpar::make,
-      "bound_mix__str" => bound_mix__str::make,
-      "join_chain__ren" => join_chain__ren::make,
-      "reach__ser" => reach__ser::make,
-      "self_join3__ser" => self_join3__ser::make,
-      "lag_right__perm1" => lag_right__perm1::make,
-      "lag_left__par" => lag_left__par::make,
-      "lag_three__topar" => lag_three__topar::make,
-      "lag_mid__str" => lag_mid__str::make,
-      "multi_head_rec__ser" => multi_head_rec__ser::make,
-      "sp_dual__par" => sp_dual__par::make,
-      "sp_dual__src1" => sp_dual__src1::make,
-      "sp_dual__perm2" => sp_dual__perm2::make,
-      "longest_capped__ser" => longest_capped__ser::make,
-      "set_reach__to" => set_reach__to::make,
-      "set_reach__srcto" => set_reach__srcto::make,
+      "tc_left__runpar" => tc_left__runpar::make,
+      "tc_left__strpar" => tc_left__strpar::make,
+      "tc_nonlin__ren" => tc_nonlin__ren::make,
+      "mutual__to" => mutual__to::make,
+      "mutual__srcto" => mutual__srcto::make,
+      "mutual__ren" => mutual__ren::make,
+      "scc_chain__to" => scc_chain__to::make,
+      "scc_chain__strpar" => scc_chain__strpar::make,
+      "repeated__par" => repeated__par::make,
+      "repeated__strpar" => repeated__strpar::make,
+      "three_dyn__ren" => three_dyn__ren::make,
+      "conds__ser" => conds__ser::make,
+      "conds__src2" => conds__src2::make,
+      "conds__perm2" => conds__perm2::make,
+      "count_up__pari" => count_up__pari::make,
+      "multi_head__perm1" => multi_head__perm1::make,
+      "facts__mrt" => facts__mrt::make,
+      "facts__init" => facts__init::make,
+      "facts__u64" => facts__u64::make,
+      "opt_cols__src0" => opt_cols__src0::make,
+      "opt_cols__srcpar" => opt_cols__srcpar::make,
+      "same_gen__topar" => same_gen__topar::make,
+      "not_reorderable__ser" => not_reorderable__ser::make,
+      "not_reorderable__permpar" => not_reorderable__permpar::make,
+      "pre_join_rec__ren" => pre_join_rec__ren::make,
+      "two_inputs__mrt" => two_inputs__mrt::make,
+      "two_inputs__init" => two_inputs__init::make,
+      "two_inputs__u64" => two_inputs__u64::make,
+      "ternary__perm1" => ternary__perm1::make,
+      "bound_mix__par" => bound_mix__par::make,
+      "bound_mix__strpar" => bound_mix__strpar::make,
+      "join_chain__str" => join_chain__str::make,
+      "reach__pari" => reach__pari::make,
+      "self_join3__pari" => self_join3__pari::make,
+      "lag_right__ren" => lag_right__ren::make,
+      "lag_left__to" => lag_left__to::make,
+      "lag_mid__par" => lag_mid__par::make,
+      "lag_mid__strpar" => lag_mid__strpar::make,
+      "multi_head_rec__pari" => multi_head_rec__pari::make,
+      "sp_dual__to" => sp_dual__to::make,
+      "sp_dual__srcto" => sp_dual__srcto::make,
+      "sp_dual__ren" => sp_dual__ren::make,
+      "longest_capped__par" => longest_capped__par::make,
+      "set_reach__topar" => set_reach__topar::make,
+      "set_reach__srcred" => set_reach__srcred::make,
       "bset__to" => bset__to::make,
       "opt_lat__par" => opt_lat__par::make,
       "lat_two_keys__ser" => lat_two_keys__ser::make,
       "lat_pre_join__ser" => lat_pre_join__ser::make,
       "lat_val_bound__ser" => lat_val_bound__ser::make,
       "lat_input__run" => lat_input__run::make,
-      "lat_input__init" => lat_input__init::make,
-      "count_paths__run" => count_paths__run::make,
-      "count_paths__init" => count_paths__init::make,
-      "neg_basic__run" => neg_basic__run::make,
-      "neg_basic__init" => neg_basic__init::make,
-      "neg_basic__exppar" => neg_basic__exppar::make,
-      "agg_depth__topar" => agg_depth__topar::make,
-      "agg_user__pari" => agg_user__pari::make,
-      "agg_bound_mix__pari" => agg_bound_mix__pari::make,
-      "agg_empty_rel__pari" => agg_empty_rel__pari::make,
-      "agg_pre_join__ser" => agg_pre_join__ser::make,
-      "disj__run" => disj__run::make,
-      "disj__init" => disj__init::make,
-      "disj__exppar" => disj__exppar::make,
-      "pat_args__pari" => pat_args__pari::make,
-      "multi_head_disj__ser" => multi_head_disj__ser::make,
-      "neg_in_disj__exp" => neg_in_disj__exp::make,
-      "mac_basic__mrt" => mac_basic__mrt::make,
-      "mac_basic__runpar" => mac_basic__runpar::make,
-      "mac_capture__exppar" => mac_capture__exppar::make,
-      "mac_gensym_disj__pari" => mac_gensym_disj__pari::make,
-      "stress_lat__ser" => stress_lat__ser::make,
-      "rnd_core_01__pari" => rnd_core_01__pari::make,
-      "rnd_core_04__par" => rnd_core_04__par::make,
-      "rnd_core_07__ser" => rnd_core_07__ser::make,
-      "rnd_core_09__pari" => rnd_core_09__pari::make,
-      "rnd_core_12__par" => rnd_core_12__par::make,
-      "rnd_core_15__ser" => rnd_core_15__ser::make,
-      "rnd_core_17__pari" => rnd_core_17__pari::make,
-      "rnd_core_20__par" => rnd_core_20__par::make,
-      "rnd_core_23__ser" => rnd_core_23__ser::make,
-      "rnd_core_25__pari" => rnd_core_25__pari::make,
-      "rnd_core_28__par" => rnd_core_28__par::make,
-      "rnd_agg_01__ser" => rnd_agg_01__ser::make,
-      "rnd_agg_03__pari" => rnd_agg_03__pari::make,
-      "rnd_agg_06__par" => rnd_agg_06__par::make,
-      "rnd_agg_09__ser" => rnd_agg_09__ser::make,
-      "rnd_agg_11__pari" => rnd_agg_11__pari::make,
-      "rnd_agg_14__par" => rnd_agg_14__par::make,
-      "rnd_prec_01__to" => rnd_prec_01__to::make,
-      "rnd_prec_03__par" => rnd_prec_03__par::make,
-      "rnd_prec_04__topar" => rnd_prec_04__topar::make,
-      "rnd_prec_06__pari" => rnd_prec_06__pari::make,
-      "rnd_prec_08__ser" => rnd_prec_08__ser::make,
-      "rnd_prea_02__ser" => rnd_prea_02__ser::make,
-      "rnd_prea_04__pari" => rnd_prea_04__pari::make,
-      "rnd_prea_07__par" => rnd_prea_07__par::make,
+      "lat_input__redecl" => lat_input__redecl::make,
+      "count_paths__topar" => count_paths__topar::make,
+      "count_paths__srcred" => count_paths__srcred::make,
+      "neg_basic__to" => neg_basic__to::make,
+      "neg_basic__srcto" => neg_basic__srcto::make,
+      "neg_basic__ren" => neg_basic__ren::make,
+      "agg_depth__par" => agg_depth__par::make,
+      "agg_lattice__topar" => agg_lattice__topar::make,
+      "neg_rec_after__exppar" => neg_rec_after__exppar::make,
+      "agg_empty__topar" => agg_empty__topar::make,
+      "agg_const_args__pari" => agg_const_args__pari::make,
+      "disj__pari" => disj__pari::make,
+      "disj__src2" => disj__src2::make,
+      "disj__perm2" => disj__perm2::make,
+      "disj_nested__exp" => disj_nested__exp::make,
+      "rep_expr__par" => rep_expr__par::make,
+      "multi_head_disj__exppar" => multi_head_disj__exppar::make,
+      "mac_basic__pari" => mac_basic__pari::make,
+      "mac_basic__src2" => mac_basic__src2::make,
+      "mac_basic__exppar" => mac_basic__exppar::make,
+      "mac_nested__pari" => mac_nested__pari::make,
+      "mac_local_names__ser" => mac_local_names__ser::make,
+      "mac_block__exp" => mac_block__exp::make,
+      "stress_lat__par" => stress_lat__par::make,
+      "rnd_core_02__ser" => rnd_core_02__ser::make,
+      "rnd_core_04__pari" => rnd_core_04__pari::make,
+      "rnd_core_07__par" => rnd_core_07__par::make,
+      "rnd_core_10__ser" => rnd_core_10__ser::make,
+      "rnd_core_12__pari" => rnd_core_12__pari::make,
+      "rnd_core_15__par" => rnd_core_15__par::make,
+      "rnd_core_18__ser" => rnd_core_18__ser::make,
+      "rnd_core_20__pari" => rnd_core_20__pari::make,
+      "rnd_core_23__par" => rnd_core_23__par::make,
+      "rnd_core_26__ser" => rnd_core_26__ser::make,
+      "rnd_core_28__pari" => rnd_core_28__pari::make,
+      "rnd_agg_01__par" => rnd_agg_01__par::make,
+      "rnd_agg_04__ser" => rnd_agg_04__ser::make,
+      "rnd_agg_06__pari" => rnd_agg_06__pari::make,
+      "rnd_agg_09__par" => rnd_agg_09__par::make,
+      "rnd_agg_12__ser" => rnd_agg_12__ser::make,
+      "rnd_agg_14__pari" => rnd_agg_14__pari::make,
+      "rnd_prec_01__topar" => rnd_prec_01__topar::make,
+      "rnd_prec_03__pari" => rnd_prec_03__pari::make,
+      "rnd_prec_05__ser" => rnd_prec_05__ser::make,
+      "rnd_prec_06__to" => rnd_prec_06__to::make,
+      "rnd_prec_08__par" => rnd_prec_08__par::make,
+      "rnd_prea_02__par" => rnd_prea_02__par::make,
+      "rnd_prea_05__ser" => rnd_prea_05__ser::make,
+      "rnd_prea_07__pari" => rnd_prea_07__pari::make,
       _ => panic!("no such program variant in this shard: {}", name),
    }
 }
